@@ -55,7 +55,7 @@ def value_to_cell(v):
         return {'n': [f.numerator, f.denominator]}
     if isinstance(v, (list, tuple)):
         return [value_to_cell(x) for x in v]
-    return {'other': type(v).__name__}
+    return {'other': type(v).__name__, 'repr': str(v)[:60]}
 
 # ----------------------------------------------------------------------------------------- rendering
 
